@@ -38,6 +38,10 @@ type RawClient struct {
 
 	User, Pass, Realm, Nonce string
 
+	// MapPeersV6, when set, encodes the next XOR-PEER-ADDRESS of an IPv4 peer as an IPv4-mapped IPv6
+	// address (family 0x02): the same peer in another notation. Consumed by one request.
+	MapPeersV6 bool
+
 	Inbox []Inbound
 	// pending: transaction ids of requests sent and not yet answered.
 	Pending map[[12]byte]uint16
